@@ -11,6 +11,7 @@ import (
 	"path/filepath"
 	"strings"
 	"testing"
+	"time"
 
 	"github.com/brutella/hc"
 	hccrypto "github.com/brutella/hc/crypto"
@@ -41,6 +42,8 @@ type caseSpec struct {
 	Requests    []req // encrypted requests
 	Switches    int
 	OutFrames   []int // plaintext sizes of the controller's outgoing frames (nil = maximal)
+	SplitAt     int   // > 0: every request travels in two TCP segments, cut this many bytes before its end
+	RetryRight  bool  // wrong-code mode: afterwards the same controller retries with the right code on the same connection
 }
 
 type req struct {
@@ -105,6 +108,10 @@ func run(cs caseSpec) (res result, err error) {
 		return res, fmt.Errorf("INFRA: dial: %v", derr)
 	}
 	defer func() { cl.Close() }()
+	if cs.SplitAt > 0 {
+		cl.SplitAt, cl.SplitPause = cs.SplitAt, 3*time.Millisecond
+		res.classes = append(res.classes, "requests-in-two-segments")
+	}
 
 	use := cs.Code
 	if cs.WrongCode != "" {
@@ -129,6 +136,25 @@ func run(cs caseSpec) (res result, err error) {
 			return res, fmt.Errorf("wrong setup code: pair-verify of the never-paired controller succeeded")
 		}
 		res.classes = append(res.classes, "wrong-code")
+		if !cs.RetryRight {
+			return res, nil
+		}
+		// the user mistyped the code: the controller asks again and retries on the same connection
+		// (one rejected start request is tolerated)
+		var rerr error
+		for attempt := 0; attempt < 2; attempt++ {
+			sr, rerr = refctl.PairSetup(cl, ctrl, dashed(cs.Code), append(cs.Entropy, byte(attempt)))
+			if rerr == nil {
+				break
+			}
+		}
+		if rerr != nil {
+			return res, fmt.Errorf("after a wrong-code attempt, the retry with the right code on the same connection fails: %v", rerr)
+		}
+		if sr.AuthFail || sr.M4Error != 0 {
+			return res, fmt.Errorf("after a wrong-code attempt, the retry with the right code %q on the same connection is answered with error %d in M4", cs.Code, sr.M4Error)
+		}
+		res.classes = append(res.classes, "wrong-then-right-on-same-connection")
 		return res, nil
 	}
 	if sr.AuthFail || sr.M4Error != 0 {
@@ -357,6 +383,10 @@ func genSpec(t *rapid.T) caseSpec {
 	if rapid.IntRange(0, 2).Draw(t, "smallframes") == 0 {
 		cs.OutFrames = rapid.SliceOfN(rapid.OneOf(rapid.IntRange(1, 50), rapid.IntRange(1, 1024)), 1, 5).Draw(t, "outframes")
 	}
+	if rapid.IntRange(0, 3).Draw(t, "split") == 0 {
+		cs.SplitAt = rapid.OneOf(rapid.IntRange(1, 40), rapid.IntRange(1, 500)).Draw(t, "splitAt")
+	}
+	cs.RetryRight = cs.WrongCode != "" && rapid.Bool().Draw(t, "retryRight")
 	n := rapid.IntRange(1, 6).Draw(t, "nreq")
 	for i := 0; i < n; i++ {
 		k := rapid.SampledFrom([]string{"put-text", "put-text", "get-text", "accessories", "get-many"}).Draw(t, "kind")
@@ -442,6 +472,8 @@ func TestC04Regress(t *testing.T) {
 		{Code: "31415926", CtrlID: "名前-😀", CtrlSeed: seed, Entropy: seed, AccID: "AB:CD:EF:01:23:45", PrePairings: 2, OutFrames: []int{1, 17, 1024}, Requests: []req{{"put-text", 3072}, {"get-text", 0}}},
 	}
 	cases = append(cases,
+		caseSpec{Code: "27182818", WrongCode: "27182819", RetryRight: true, CtrlID: "retry", CtrlSeed: seed, Entropy: seed},
+		caseSpec{Code: "16180339", CtrlID: "split", CtrlSeed: seed, Entropy: seed, SplitAt: 200, SameConn: true, Requests: []req{{"put-text", 1500}, {"get-text", 0}}},
 		caseSpec{Code: "11122333", CtrlID: "first", CtrlSeed: seed, Entropy: seed, AccID: "C4:04:00:00:00:09", WrongCode: "44455666"},
 		caseSpec{Code: "44455666", CtrlID: "second", CtrlSeed: seed, Entropy: seed, AccID: "C4:04:00:00:00:09", Requests: []req{{"get-text", 0}}},
 		caseSpec{Code: "44455666", CtrlID: "third", CtrlSeed: seed, Entropy: seed, AccID: "C4:04:00:00:00:09", WrongCode: "11122333"},
